@@ -6,11 +6,16 @@ package gitback
 
 import (
 	"bytes"
+	"errors"
 	"fmt"
 	"os"
 	"os/exec"
+	"reflect"
 	"strings"
 	"testing"
+	"unsafe"
+
+	"github.com/jonboulle/clockwork"
 
 	"github.com/gittuf/gittuf/pkg/githash"
 	"github.com/gittuf/gittuf/pkg/gitinterface"
@@ -104,4 +109,74 @@ func (r *Repo) Refs() map[string]string {
 		m[f[0]] = f[1]
 	}
 	return m
+}
+
+// Rebind returns a copy of the test repository handle tmpl (fixed identity,
+// object format) that operates on the git directory gitDir and, when clock is
+// not nil, reads time from clock. gitinterface.Repository has no exported way
+// to do either, so the two unexported fields are set by reflection; a renamed
+// field is reported as an error (never silently ignored).
+func Rebind(tmpl *gitinterface.Repository, gitDir string, clock clockwork.Clock) (*gitinterface.Repository, error) {
+	cp := *tmpl
+	v := reflect.ValueOf(&cp).Elem()
+	f := v.FieldByName("gitDirPath")
+	if !f.IsValid() || f.Kind() != reflect.String {
+		return nil, errors.New("gitinterface.Repository has no string field gitDirPath; update gitback.Rebind")
+	}
+	reflect.NewAt(f.Type(), unsafe.Pointer(f.UnsafeAddr())).Elem().SetString(gitDir)
+	if cp.GetGitDir() != gitDir {
+		return nil, errors.New("could not rebind the test repository handle")
+	}
+	if clock != nil {
+		c := v.FieldByName("clock")
+		if !c.IsValid() || c.Kind() != reflect.Interface {
+			return nil, errors.New("gitinterface.Repository has no interface field clock; update gitback.Rebind")
+		}
+		reflect.NewAt(c.Type(), unsafe.Pointer(c.UnsafeAddr())).Elem().Set(reflect.ValueOf(clock))
+	}
+	return &cp, nil
+}
+
+// RawCommit is one commit as git stores it.
+type RawCommit struct {
+	ID      string
+	Parents []string
+	Message string
+}
+
+// ReadChain reads the commits under ref, newest first, following first
+// parents, with cat-file only (no gitinterface, no pkg/rsl).
+func ReadChain(gitDir, ref string) ([]RawCommit, error) {
+	run := func(args ...string) ([]byte, error) {
+		cmd := exec.Command("git", append([]string{"--git-dir", gitDir}, args...)...)
+		cmd.Env = append(os.Environ(), "LC_ALL=C", "GIT_CONFIG_GLOBAL=/dev/null", "GIT_CONFIG_SYSTEM=/dev/null")
+		return cmd.Output()
+	}
+	tipB, err := run("rev-parse", "--verify", "-q", ref)
+	if err != nil {
+		return nil, nil // no such ref
+	}
+	out := []RawCommit{}
+	cur := strings.TrimSpace(string(tipB))
+	seen := map[string]bool{}
+	for cur != "" && !seen[cur] {
+		seen[cur] = true
+		raw, err := run("cat-file", "commit", cur)
+		if err != nil {
+			return out, fmt.Errorf("%s is not a commit: %w", cur, err)
+		}
+		head, msg, _ := strings.Cut(string(raw), "\n\n")
+		c := RawCommit{ID: cur, Message: msg}
+		for _, line := range strings.Split(head, "\n") {
+			if strings.HasPrefix(line, "parent ") {
+				c.Parents = append(c.Parents, strings.TrimPrefix(line, "parent "))
+			}
+		}
+		out = append(out, c)
+		if len(c.Parents) == 0 {
+			break
+		}
+		cur = c.Parents[0]
+	}
+	return out, nil
 }
